@@ -7,23 +7,27 @@ the list of its `(key, value)` items in insertion order and `d[k]` as `List.look
 dict has pairwise distinct keys, so "first" is "the").  Calibration values are opaque tokens of a type
 `Val` with a designated `zero` (the `0.0` of `np.zeros`): the function only moves them around.
 
-Transcribed statement by statement:
+Transcribed statement by statement (the code as repaired by notes/fixes/D25-mixed-two-qubit-basis.diff):
   isinstance(backend, FakeBackend) / isinstance(backend, Backend) / else: raise ValueError     -> `Kind`
+  int_gates = [x for x in config.basis_gates if x == 'ecr' or x == 'cx']                       -> `natives`
+  if len(int_gates) == 0: raise ValueError
   self.T1   = [prop.t1(j) for j in self.qubits_layout]                                         -> `perQubit b.t1`
   self.T2   = [prop.t2(j) ...]; self.p = [prop.gate_error('x', [j]) ...]; self.rout = [prop.readout_error(j) ...]
   self.dt   = [config.dt]                                                                      -> `b.dt`
   self.tm   = [prop.readout_length(j) ...]
   max_qubit = np.max(self.qubits_layout) + 1                                                   -> `maxLabel`
   t_int = np.zeros((max_qubit, max_qubit)); p_int = np.zeros(...)                              -> `zeros`
-  for x in backend_base: if x == 'ecr': int_info = prop.gate_property('ecr'); break
-                         elif x == 'cx': int_info = prop.gate_property('cx'); break            -> `firstInt`, `List.lookup`
-  if int_info is None: raise ValueError
+  int_infos = [prop.gate_property(x) for x in int_gates]                                       -> `intInfos`
   if max_qubit > 1:
-      for x in int_info: i, j = x; if i > max_qubit-1 or j > max_qubit-1: continue
-          p_int[i,j] = int_info[i,j]['gate_error'][0]; t_int[i,j] = int_info[i,j]['gate_length'][0]   -> `fill`
+      for int_info in reversed(int_infos):                                                     -> `fillAll` on the reversed list
+          for x in int_info: i, j = x; if i > max_qubit-1 or j > max_qubit-1: continue
+              p_int[i,j] = int_info[i,j]['gate_error'][0]; t_int[i,j] = int_info[i,j]['gate_length'][0]   -> `fill`
+
+(The unrepaired code took only the first `ecr`/`cx` of the basis and tested for it after the per-qubit lookups;
+on it the correspondence disagrees on mixed cx/ecr devices and on unsupported devices with an incomplete layout.)
 
 Errors (the order of the statements decides which one wins):
-  `value`     ValueError            unsupported backend type; `np.max` of an empty layout; no `ecr`/`cx` in the basis
+  `value`     ValueError            unsupported backend type; no `ecr`/`cx` in the basis; `np.max` of an empty layout
   `property`  BackendPropertyError  qiskit's accessor does not find T1/T2/x error/readout error/readout length of a
                                     requested qubit, or the basis names `ecr`/`cx` but the properties have no such gate
   `attribute` AttributeError        the configuration has no `dt`
@@ -88,10 +92,8 @@ def maxLabel : List Nat → Option Nat
   | [] => none
   | q :: L => some (L.foldl max q)
 
-/-- the `for x in backend_base` loop: the first basis entry that is `ecr` or `cx` -/
-def firstInt : List String → Option String
-  | [] => none
-  | x :: xs => if x == "ecr" then some "ecr" else if x == "cx" then some "cx" else firstInt xs
+/-- `[x for x in basis_gates if x == 'ecr' or x == 'cx']`: the supported two-qubit gates, in basis order -/
+def natives (basis : List String) : List String := basis.filter fun x => x == "ecr" || x == "cx"
 
 /-- `np.zeros((n, n))` -/
 def zeros (zero : Val) (n : Nat) : List (List Val) := List.replicate n (List.replicate n zero)
@@ -110,47 +112,62 @@ def fill (mq : Nat) (G : List ((Nat × Nat) × (Val × Val))) :
       | some (e, l) => fill mq G rest (setCell p k.1 k.2 e, setCell t k.1 k.2 l)
       | none => fill mq G rest (p, t)                                      -- unreachable: `k` is a key of `G`
 
-/-- `int_info` after the basis loop: `.ok none` = still `None` -/
-def intInfo (b : Backend Val) : Except Err (Option (List ((Nat × Nat) × (Val × Val)))) :=
-  match firstInt b.basis with
-  | none => .ok none
-  | some g =>
-    match List.lookup g b.gate2 with
-    | none => .error .property                                             -- prop.gate_property(g) raises
-    | some G => .ok (some G)
+/-- `for int_info in <list>: <the loop above>` : the tables of the list are written one after the other, so a later
+table overwrites an earlier one on a common pair -/
+def fillAll (mq : Nat) : List (List ((Nat × Nat) × (Val × Val))) → List (List Val) × List (List Val) →
+    List (List Val) × List (List Val)
+  | [], acc => acc
+  | G :: rest, acc => fillAll mq rest (fill mq G G acc)
+
+/-- `[prop.gate_property(x) for x in int_gates]`; the accessor raises on a gate the properties do not hold -/
+def intInfos (gate2 : List (String × List ((Nat × Nat) × (Val × Val)))) :
+    List String → Except Err (List (List ((Nat × Nat) × (Val × Val))))
+  | [] => .ok []
+  | g :: gs =>
+    match List.lookup g gate2 with
+    | none => .error .property
+    | some G =>
+      match intInfos gate2 gs with
+      | .error e => .error e
+      | .ok Gs => .ok (G :: Gs)
+
+/-- everything after the two rejections; `gs` = `int_gates` (non-empty when called) -/
+def loadCore (zero : Val) (L : List Nat) (b : Backend Val) (gs : List String) : Except Err (Params Val) :=
+  match perQubit b.t1 L with
+  | .error e => .error e
+  | .ok T1 =>
+  match perQubit b.t2 L with
+  | .error e => .error e
+  | .ok T2 =>
+  match perQubit b.xerr L with
+  | .error e => .error e
+  | .ok p =>
+  match perQubit b.rerr L with
+  | .error e => .error e
+  | .ok rout =>
+  match b.dt with
+  | none => .error .attribute
+  | some d =>
+  match perQubit b.rlen L with
+  | .error e => .error e
+  | .ok tm =>
+  match maxLabel L with
+  | none => .error .value
+  | some m =>
+  let mq := m + 1
+  let z := zeros zero mq
+  match intInfos b.gate2 gs with
+  | .error e => .error e
+  | .ok Gs =>
+    let pt := if mq > 1 then fillAll mq Gs.reverse (z, z) else (z, z)
+    .ok { T1 := T1, T2 := T2, p := p, rout := rout, tm := tm, dt := [d], p_int := pt.1, t_int := pt.2 }
 
 def load (zero : Val) (L : List Nat) (b : Backend Val) : Except Err (Params Val) :=
   match b.kind with
-  | .other => .error .value
+  | .other => .error .value                                  -- neither a BackendV2 nor a FakeBackendV2
   | _ =>
-    match perQubit b.t1 L with
-    | .error e => .error e
-    | .ok T1 =>
-    match perQubit b.t2 L with
-    | .error e => .error e
-    | .ok T2 =>
-    match perQubit b.xerr L with
-    | .error e => .error e
-    | .ok p =>
-    match perQubit b.rerr L with
-    | .error e => .error e
-    | .ok rout =>
-    match b.dt with
-    | none => .error .attribute
-    | some d =>
-    match perQubit b.rlen L with
-    | .error e => .error e
-    | .ok tm =>
-    match maxLabel L with
-    | none => .error .value
-    | some m =>
-    let mq := m + 1
-    let z := zeros zero mq
-    match intInfo b with
-    | .error e => .error e
-    | .ok none => .error .value
-    | .ok (some G) =>
-      let pt := if mq > 1 then fill mq G G (z, z) else (z, z)
-      .ok { T1 := T1, T2 := T2, p := p, rout := rout, tm := tm, dt := [d], p_int := pt.1, t_int := pt.2 }
+    match natives b.basis with
+    | [] => .error .value                                    -- no supported interaction gate
+    | g0 :: gs => loadCore zero L b (g0 :: gs)
 
 end QG.Model.Calibration
